@@ -303,9 +303,9 @@ func TestC14_Mixes(t *testing.T) {
 					req.Out = out
 				}
 				if err := env.SignServer(req); err != nil {
-					if starved(err) {
-						// no HTTP status at all: on a starved machine the TLS handshake or the
-						// HTTP/2 preface of the race-built daemon runs into its own time-outs.
+					if log := d.stderr.String(); starved(err) && (strings.Contains(log, "i/o timeout") || strings.Contains(log, "timeout waiting for SETTINGS")) {
+						// no HTTP status at all, and the daemon's own log shows its TLS handshake or
+						// HTTP/2 preface time-outs firing: the machine is starved.
 						// Nothing can be concluded from such a run (a repeat would sign twice).
 						inconclusive(fmt.Sprintf("request %d got no HTTP response (%v): the machine is too loaded for this run", i, err))
 					}
@@ -460,7 +460,6 @@ func TestC14_Mixes(t *testing.T) {
 
 var _ = keys.Kind
 
-// inconclusive ends the run without a verdict: wall-clock waits never decide the property.
 // starved: transport-level errors without any HTTP status (the connection could not be
 // set up or died before a response), as seen when the machine is heavily over-committed.
 func starved(err error) bool {
@@ -476,6 +475,7 @@ func starved(err error) bool {
 	return false
 }
 
+// inconclusive ends the run without a verdict: wall-clock waits never decide the property.
 func inconclusive(msg string) {
 	fmt.Println("VERIF-INCONCLUSIVE: " + msg)
 	rec.Flush()
